@@ -1,8 +1,42 @@
-import Cirbo.Model.Mutate2
-/-! # C19 (placeholder until the theorems are in)
--- OBLIGATION: c19_placeholder
+import Cirbo.Proofs.Rewrite
+/-!
+# C19 — Local rewrites keep or specialise the function exactly as documented
+
+-- OBLIGATION: c19_replace_inputs_is_cofactor
+-- OBLIGATION: c19_remove_gate
+-- OBLIGATION: c19_remove_gate_rejects
+-- PARTIAL: rename_gate (every reference follows the rename; truth table unchanged) and replace_subcircuit (equivalent replacement keeps the truth table and well-formedness or raises a documented error) are modelled one-to-one (Model/Mutate.lean renameGate, Mutate2.lean replaceSubcircuit incl. slice collection, block removal, re-insertion, restored users, final cycle check) and compared field by field with the code on every gate / many slices per circuit, with truth tables and checkWFU as oracles, but their theorems are not proved yet.
 -/
 namespace Cirbo
-theorem c19_placeholder : True := trivial
-#print axioms c19_placeholder
+open Circuit
+
+/-- **Fixing inputs to constants yields exactly the cofactor** over the remaining inputs in their
+original relative order: for every assignment `b` with t ↦ True, f ↦ False and valuation `v` of
+the original, every assignment `b'` of the *remaining* inputs that agrees with `b` makes `v` a
+valuation of the result; outputs are unchanged; the result is well formed. -/
+theorem c19_replace_inputs_is_cofactor {c c' : Circuit} {t f : List Label} (hw : WFS c)
+    (h : c.replaceInputs t f = .ok c') {b v : Label → Bool} (hv : IsValB c b v)
+    (ht : ∀ l ∈ t, b l = true) (hf : ∀ l ∈ f, b l = false) :
+    WFS c' ∧ c'.outputs = c.outputs ∧ (∀ x, x ∈ c'.inputs ↔ x ∈ c.inputs ∧ x ∉ t ∧ x ∉ f) ∧
+    c'.inputs.Sublist c.inputs ∧
+    ∀ b', (∀ x ∈ c'.inputs, b' x = b x) → IsValB c' b' v :=
+  replaceInputs_cofactor hw h hv ht hf
+
+/-- removing a gate succeeds only for an existing gate nobody uses and removes it from the gate
+map, the outputs and the blocks -/
+theorem c19_remove_gate {c c' : Circuit} {l : Label} (h : c.removeGate l = .ok c') :
+    l ∈ c.labels ∧ c.usersOf l = [] ∧
+    c'.gates = c.gates.filter (fun x => !(x.label == l)) ∧
+    c'.outputs = c.outputs.filter (fun o => !(o == l)) ∧
+    c'.blocks = c.blocks.filter (fun b => !(b.gates.contains l || b.inputs.contains l)) ∧
+    (∀ x ∈ c'.inputs, x ∈ c.inputs) := removeGate_spec h
+
+theorem c19_remove_gate_rejects {c : Circuit} {l : Label} :
+    (l ∉ c.labels → c.removeGate l = .error "CircuitValidationError") ∧
+    (l ∈ c.labels → c.usersOf l ≠ [] → c.removeGate l = .error "GateHasUsersError") := removeGate_rejects
+
+#print axioms c19_replace_inputs_is_cofactor
+#print axioms c19_remove_gate
+#print axioms c19_remove_gate_rejects
+
 end Cirbo
